@@ -99,8 +99,31 @@ PRE = f'{VAR} FS = [];\n{VAR} LOG = [];\n{VAR} G = 0;\n'
 POST = (f'{P} {N["len"]}(FS);\n{FOR} ({VAR} q = 0; q < {N["len"]}(FS); q = q + 1) {{ {VAR} fq = FS[q]; {P} fq(); }}\n'
         f'{FOR} ({VAR} q = 0; q < {N["len"]}(FS); q = q + 1) {{ {VAR} fq = FS[q]; {P} fq(); }}\n{P} LOG;\n{P} G;\n')
 
+def extra_programs():
+    """whole programs about what a NAME denotes at the moment it is used: a function's own name, names declared after the
+    closure that uses them was created, the same call expression re-entered from inside one of its own arguments"""
+    E = {}
+    # --- a function's own name (bound in each activation to that function, whatever the outer name means by then)
+    E['own-name-after-rebinding'] = f'{FUN} f(n) {{ {IF} (n == 0) {{ {RET} "base"; }} {RET} f(n - 1); }}\n{VAR} g = f;\n{FUN} other(n) {{ {RET} "other"; }}\nf = other;\n{P} g(2);\n{P} f(2);\n{P} g == f;\n'
+    E['own-name-in-nested-helper'] = f'{VAR} log = [];\n{FUN} walk(n) {{ {FUN} step() {{ {RET} walk(n - 1); }} log = {N["append"]}(log, n); {IF} (n == 0) {{ {RET} "end"; }} {RET} step(); }}\n{VAR} w = walk;\n{FUN} wrap(n) {{ {P} "wrapped"; {RET} w(n); }}\nwalk = wrap;\n{P} walk(2);\n{P} log;\n'
+    E['own-name-one-return'] = f'{VAR} calls = 0;\n{FUN} cnt(n) {{ {RET} n == 0 || cnt(n - 1); }}\n{VAR} c0 = cnt;\n{FUN} loud(n) {{ calls = calls + 1; {RET} c0(n); }}\ncnt = loud;\n{P} cnt(3);\n{P} calls;\n{FUN} cnt2(n) {{ {IF} ({FALSE}) {{ {P} "dead"; }} {RET} n == 0 || cnt2(n - 1); }}\n{VAR} c2 = cnt2;\n{FUN} loud2(n) {{ calls = calls + 10; {RET} c2(n); }}\ncnt2 = loud2;\n{P} cnt2(3);\n{P} calls;\n'
+    E['own-name-redeclared-in-body'] = f'{FUN} total(a, b) {{ {VAR} sum = a + b; {P} "before"; {VAR} total = sum * 2; {P} "not reached"; {RET} total; }}\n{P} total(1, 2);\n{P} "after";\n'
+    E['own-name-assigned-in-body'] = f'{FUN} once() {{ once = 5; {RET} "first"; }}\n{P} once();\n{P} once();\n{P} once;\n{FUN} again() {{ {VAR} keep = again; again = nil; {RET} keep; }}\n{VAR} a1 = again();\n{P} a1 == again;\n{P} again;\n{P} a1() == a1;\n'
+    E['own-name-as-parameter'] = f'{FUN} f(f) {{ {RET} f + 1; }}\n{P} f(1);\n{FUN} g(x, g) {{ {RET} [x, g]; }}\n{P} g(1, 2);\n{P} g;\n'
+    E['own-name-shadowed-by-local-function'] = f'{FUN} outer() {{ {FUN} outer2() {{ {RET} outer; }} {RET} outer2() == outer; }}\n{P} outer();\n{VAR} o = outer;\nouter = 1;\n{P} o();\n'
+    # --- names declared after the closure that uses them exists
+    E['closure-sees-later-declaration'] = f'{VAR} FS = [];\n{{\n  {{ {FUN} peek() {{ {RET} late; }} FS = {N["append"]}(FS, peek); }}\n  {VAR} late = 5;\n  {VAR} h = FS[0];\n  {P} h();\n  late = 6;\n}}\n{VAR} h2 = FS[0];\n{P} h2();\n'
+    E['closure-sees-later-declaration-in-function'] = f'{FUN} mk() {{ {{ {FUN} get() {{ {RET} v; }} {VAR} unused = 0; }} {IF} ({TRUE}) {{ {FUN} get2() {{ {RET} v + 1; }} {VAR} v = 10; {RET} get2; }} }}\n{VAR} g = mk();\n{P} g();\n{VAR} v = 100;\n{{ {{ {FUN} gv() {{ {RET} v; }} {P} gv(); }} {VAR} v = 7; }}\n'
+    E['block-without-declarations'] = f'{VAR} x = 1;\n{{ {{ x = x + 1; {FUN} inc() {{ x = x + 10; {RET} x; }} {P} inc(); }} {P} x; {VAR} x = 50; {P} x; }}\n{P} x;\n'
+    # --- the same call expression re-entered from one of its own arguments
+    E['recursion-in-second-argument'] = f'{FUN} add(a, b) {{ {RET} a + b; }}\n{FUN} sum(n) {{ {IF} (n == 0) {{ {RET} 0; }} {RET} add(n, sum(n - 1)); }}\n{P} sum(3);\n{P} sum(10);\n{FUN} fib(n) {{ {IF} (n < 2) {{ {RET} n; }} {RET} add(fib(n - 1), fib(n - 2)); }}\n{P} fib(10);\n'
+    E['recursion-in-later-argument-of-builtin'] = f'{VAR} row = [3, 9, 4, 7, 1];\n{FUN} biggest(i) {{ {IF} (i == {N["len"]}(row) - 1) {{ {RET} row[i]; }} {RET} {N["max"]}(row[i], biggest(i + 1)); }}\n{P} biggest(0);\n{FUN} pair(a, b) {{ {RET} [a, b]; }}\n{FUN} nest(n) {{ {IF} (n == 0) {{ {RET} "leaf"; }} {RET} pair(n, nest(n - 1)); }}\n{P} nest(3);\n'
+    E['ackermann'] = f'{FUN} ack(m, n) {{ {IF} (m == 0) {{ {RET} n + 1; }} {IF} (n == 0) {{ {RET} ack(m - 1, 1); }} {RET} ack(m - 1, ack(m, n - 1)); }}\n{P} ack(2, 2);\n{P} ack(2, 3);\n'
+    E['arguments-survive-inner-call'] = f'{FUN} three(a, b, c) {{ {RET} [a, b, c]; }}\n{FUN} deep(n) {{ {IF} (n == 0) {{ {RET} three("x", "y", "z"); }} {RET} three(n, deep(n - 1), n * 10); }}\n{P} deep(2);\n'
+    return [(k, v) for k, v in E.items()]
+
 def reexec_programs(tier='quick'):
-    out = []
+    out = list(extra_programs())
     Bs, Cs = bodies(), contexts()
     for cn, ctx in Cs.items():
         for bn, body in Bs.items():
